@@ -111,7 +111,7 @@ theorem cmux_selects (n k : Nat) (bit : Bool) (d P w e : Nat → Poly) (R : Nat)
     rw [negMul_one, polyAdd_assoc, polyAdd_comm _ F, ← polyAdd_assoc, polyAdd_polySub_cancel T F (by rw [hT, hF])]
   | false =>
     simp only [Bool.false_eq_true, if_false]
-    rw [negMul_zeroP_left, hlen, polyAdd_zero_left n _ hN, polyAdd_comm]
+    rw [negMul_zeroP_left, hlen, ep_polyAdd_zero_left n _ hN, polyAdd_comm]
 
 example : polyAdd (sumR 2 (fun q => Hal.negMul ([[3, -1]].getD q []) ([[1, 5]].getD q [])) 1) [8, 21]
     = polyAdd [11, 20] (sumR 2 (fun q => Hal.negMul ([[3, -1]].getD q []) ([[0, 5]].getD q [])) 1) :=
